@@ -33,6 +33,19 @@ type target struct {
 	Multi    bool // endpoint takes a list
 	Ignored  bool // endpoint never admits anything (validator registrations are ignored by charon)
 	Proposal bool
+	// Prod: the node's eth2 client is charon's production http adapter (eth2wrap.AdaptEth2HTTP) over
+	// the beacon mock's HTTP server behind a proxy serving a mainnet-like, non-genesis fork schedule.
+	Prod bool
+	// Base is the target whose endpoint / duty type a Prod target drives.
+	Base string
+}
+
+func (tg target) endpoint() string {
+	if tg.Base != "" {
+		return tg.Base
+	}
+
+	return tg.Name
 }
 
 var vapiTargets = []target{
@@ -66,10 +79,23 @@ var peerTargets = []target{
 	{Name: "peer/sync-contribution", Peer: true, Kind: "sync-contribution", Duty: core.DutySyncContribution},
 }
 
+var prodTargets = []target{
+	{Name: "prod/vapi/voluntary-exit", Base: "vapi/voluntary-exit", Prod: true, Kind: "exit", Duty: core.DutyExit},
+	{Name: "prod/peer/exit", Base: "peer/exit", Prod: true, Peer: true, Kind: "exit", Duty: core.DutyExit},
+	{Name: "prod/vapi/beacon-committee-selections", Base: "vapi/beacon-committee-selections", Prod: true, Kind: "beacon-selection", Duty: core.DutyPrepareAggregator, Multi: true},
+	{Name: "prod/vapi/sync-committee-messages", Base: "vapi/sync-committee-messages", Prod: true, Kind: "sync-message", Duty: core.DutySyncMessage, Multi: true},
+	{Name: "prod/vapi/sync-committee-selections", Base: "vapi/sync-committee-selections", Prod: true, Kind: "sync-selection", Duty: core.DutyPrepareSyncContribution, Multi: true},
+	{Name: "prod/peer/randao", Base: "peer/randao", Prod: true, Peer: true, Kind: "randao", Duty: core.DutyRandao},
+	{Name: "prod/peer/prepare-aggregator", Base: "peer/prepare-aggregator", Prod: true, Peer: true, Kind: "beacon-selection", Duty: core.DutyPrepareAggregator},
+	{Name: "prod/peer/sync-message", Base: "peer/sync-message", Prod: true, Peer: true, Kind: "sync-message", Duty: core.DutySyncMessage},
+	{Name: "prod/peer/attester-electra", Base: "peer/attester-electra", Prod: true, Peer: true, Kind: "attestation", Duty: core.DutyAttester, Versions: postElectra},
+}
+
 // quickTargets: the quick tier runs these on every round and rotates through the remaining ones.
 var quickAlways = map[string]bool{
 	"vapi/attestations-electra": true, "vapi/submit-proposal": true, "vapi/sync-committee-messages": true, "vapi/aggregate-attestations": true,
 	"peer/attester-electra": true, "peer/proposer": true, "peer/sync-contribution": true,
+	"prod/vapi/voluntary-exit": true, "prod/peer/exit": true,
 }
 
 // env is the per-run shared state.
@@ -138,6 +164,7 @@ func TestCheck(t *testing.T) {
 		"proposals: payload != agreed proposal (index, blinded flag, version, body) with a valid signature. non-trivial = baseline admitted and at least one must-reject alteration exercised; distinct = hash(target, kind/version, n, k, i, classes exercised)")
 	r.Assume("tbls.Verify / tbls.Sign (herumi) are the trusted base of the independent re-verification (C08 checks them)")
 	r.Assume("domain = compute_domain(type, fork version in effect at the object's own epoch per the mock's fork schedule, genesis validators root); builder registrations use the genesis fork version and a zero root. The EIP-7044 voluntary-exit override lives in eth2wrap.httpAdapter, outside this engine")
+	r.Assume("prod/* targets: the node's eth2 client is charon's production adapter (eth2wrap.AdaptEth2HTTP, mainnet lock fork version, validator cache set) over the beacon mock's HTTP server behind a proxy serving a mainnet-like schedule (Altair 10, Bellatrix 20, Capella 100, Deneb 200, Electra 300); the chain's current epoch is past Deneb, so per EIP-7044 a voluntary exit is valid only under the Capella fork version whatever epoch its message carries; every other object under the fork version of its own epoch. A correctly signed object being refused is not a verdict (counted)")
 	r.Assume("an alteration is must-reject iff the altered object no longer verifies under lock.pubshare[claimed validator][claimed share] for its own root/domain/epoch, or a stated precondition is broken (validator unknown / not in the cluster, share index out of range, proposal != agreed proposal, aggregator selection proof invalid, peer duty outside the gater window or of an invalid type). An epoch change that leaves the domain (fork) and root unchanged, bits / annotations / blobs the signing root does not cover, and a peer relaying a partial that is valid for the share index it claims are may-admit: only the universal re-verification applies")
 	r.Assume("the duty gater only bounds the future (core/gater.go: past duties are the Deadliner's job), so an expired duty from a peer is may-admit at this boundary; a wire duty slot that differs from the object's slot is not covered by the statement and is recorded as an observation")
 	r.RacePkgs(false, "core/validatorapi", "core/parsigex")
@@ -146,7 +173,7 @@ func TestCheck(t *testing.T) {
 
 	var plan []target
 	rounds := r.N(6, 40)
-	all := append(append([]target(nil), vapiTargets...), peerTargets...)
+	all := append(append(append([]target(nil), vapiTargets...), peerTargets...), prodTargets...)
 	for round := 0; round < rounds; round++ {
 		if r.Thorough() {
 			plan = append(plan, all...)
@@ -174,11 +201,12 @@ func TestCheck(t *testing.T) {
 	r.Require("universal_checks", int64(len(plan)))
 	r.Require("may_admit_admitted", 20)
 	r.Require("peer_verifications_started_with_done_context", 50)
+	r.Require("fork_sweep_correct_domain_admitted=true", 50)
 	r.Require("peer_ctx_done_mode1_must_reject_rejected", 100)
 
 	r.Cases(len(plan), 0, func(c *kit.Case) {
 		tg := plan[c.Idx]
-		w, err := newWorld(r.T(), c.Rng)
+		w, err := newWorld(r.T(), c.Rng, tg.Prod)
 		if err != nil {
 			r.Inconclusive("case %d: world: %v", c.Idx, err)
 			return
